@@ -10,7 +10,7 @@ CLAIMS = {
                 text="From a frozen table of constant-time API roots (>=100 functions incl. operator impls) with all parameters secret, no reached function (>=250 per backend) contains a SwitchInt/Assert on a secret value, secret-indexed memory, secret Div/Rem, "
                      "an un-vetted extern call or a value-dependent library routine (comparisons, predicate adapters such as skip_while) on secret data, or a call edge into the variable-time set; one reviewed exception (invariantly-true assert in FieldElement::batch_invert). "
                      "Decided on the MIR the compiler starts from, per backend; what LLVM does afterwards is trusted (subtle barriers, x86 timing)",
-                note="source-level (MIR) claim; the vetted-extern table is part of the trusted base", ref="3.4, 4 C10"),
+                note="source-level (MIR) claim; the vetted-extern table is part of the trusted base. Added sink secret-mask: a secret expanded to a selection mask by wrapping_sub(1) / wrapping_neg / 0 - x and and-ed in (the RUSTSEC-2024-0344 idiom that compilers turn into a branch) - selection must go through subtle", ref="3.4, 4 C10, 10.6"),
     "C14": dict(cat="other", tech="field-coverage of Drop/Zeroize bodies from ADT facts + heap-buffer typestate driven by TAINT from scalar parameters (ZEROIZE engine)",
                 text="Each of the 6 secret-holding types has a Drop that zeroizes every non-public field on all normal paths; every hand-written Zeroize impl writes every field and points reset to identity constants; "
                      "every scalar-derived heap local found by taint in constant-time multiscalar multiplication and Scalar::batch_invert (3 today) is a single-allocation Vec, Zeroizing from construction or explicitly zeroized on every normal path before release, with no re-allocating operation; the single-allocation premise is itself checked: the constant-time entry point reaches Straus only after establishing that the scalar iterator's size hint is exact",
@@ -26,7 +26,7 @@ CLAIMS = {
     "C07": dict(cat="other", tech="known-bits abstract interpretation of clamp_integer (complete) + polynomial-multiple abstract domain over the Montgomery ladder (LADDER) + PATH rules over resolved MIR",
                 text="clamp_integer is bit-exactly RFC 7748 clamping (decided completely); all clamped entry points multiply by Scalar{clamp(input)}; x25519-dalek reaches multiplications only through mul_clamped/mul_base_clamped with the documented shapes; "
                      "ladder: in the LADDER abstract domain (points = multilinear-polynomial multiples of the base point over the symbolic scalar bits; conditional_swap and differential_add_and_double by their documented contracts, the latter's precondition Q-P = +-base checked at each of the 255 steps) mul_bits_be and &MontgomeryPoint * &Scalar evaluate to (sum_{j<255} 2^j b_j) * P, independently of the loop's syntax; to_edwards rejects decoded u=-1 before inverting and puts sign in bit 255; Montgomery eq/hash canonicalise; contributory = !identity; key conversions. Ladder-step and map arithmetic are not decided",
-                note="partial/structural except clamp_integer (complete), the ladder (LADDER) and C07.formula: differential_add_and_double = (x(2P), x(P+Q)) by Montgomery's formulas, to_montgomery encodes (1+y)/(1-y), to_edwards decodes (u-1)/(u+1), as rational identities (FORMULA domain)", ref="3.2 known-bits, 3.6, 4 C07, 10.6"),
+                note="partial/structural except clamp_integer (complete), the ladder (LADDER) and C07.formula: differential_add_and_double = (x(2P), x(P+Q)) by Montgomery's formulas, to_montgomery encodes (1+y)/(1-y), to_edwards decodes (u-1)/(u+1), as rational identities (FORMULA domain); C07.sem.clamped: the five clamped multiplications multiply by the unreduced integer clamp(bytes) (symbolic inputs, BATCHEQ models)", ref="3.2 known-bits, 3.6, 4 C07, 10.6"),
     "C08": dict(cat="other", tech="ORDER of digest updates per hash session on every CFG path + call-identity data flow + dominance (PATH engine)",
                 text="raw_sign / raw_sign_prehashed: r = H([dom2(1,ctx)] prefix||M), R = compress(mul_base(r)), k = H([dom2] R||A||M), s = k*a + r, signature (R,s); context > 255 rejected before hashing (and in Context::new); "
                      "expansion = from_bytes(SHA-512(seed)) with scalar = reduce(clamp(bytes[0..32])), prefix = bytes[32..64]; SigningKey only assembled with the verifying key derived from the same seed; sign wiring uses the key's own seed and verifying key; "
@@ -35,37 +35,38 @@ CLAIMS = {
     "C17": dict(cat="other", tech="exhaustive arithmetic on evaluated ff constants + PATH rules (dominance, flag implication, delegation identity)",
                 text="ff constants satisfy their defining relations incl. generator of full order (factorisation of l-1 verified) and the Tonelli-Shanks exponent literal; from_repr = canonical decoder; from_repr_vartime: high-bit test and equality with reduce dominate Some; "
                      "Field::invert None only for zero; GroupEncoding for EdwardsPoint/SubgroupPoint = native decoder (+ into_subgroup); into_subgroup flag = torsion-free predicate; clear_cofactor = x8; SubgroupPoint constructors inventory. sqrt correctness on all residues is delegated to ff's helper (trusted)",
-                note="partial for behaviour, complete for the constants", ref="3.1, 3.6, 4 C17"),
+                note="partial for behaviour, complete for the constants. Added (C17.is_identity, FORMULA domain): every group::Group::is_identity impl (EdwardsPoint, SubgroupPoint, RistrettoPoint) makes exactly the field comparisons of ct_eq(self, identity), combined the same way", ref="3.1, 3.6, 4 C17, 10.6"),
     "C11": dict(cat="proof", tech="interval abstract interpretation of checked-mode MIR with inductive limb-bound type invariants (ABSINT engine)",
                 text="Serial u64 and u32 backends and the AVX2 vector backend (simd build: lane-wise interval models of the 27 intrinsics; every packed add / sub / shift-left that could wrap its lane and every 64-bit lane product used as a 32-bit multiplicand is an obligation; ExtendedPoint b<0.007 and CachedPoint b<1.0 are checked as inductive invariants of the vector point operations): every Assert(overflow / bounds / division) terminator, debug assertion and panicking call reachable from every exported function of curve25519-dalek (roots discovered, >=250 per backend, parameters at their type's limb-bound invariant) "
                      "and from the field kernels under their documented precondition is shown unreachable by a sound interval analysis; every value of an invariant-carrying type produced by a root re-establishes the invariant (so chains of operations are covered inductively). "
                      "Generic entry points (Straus, Pippenger per window width, Sum/Product folds, batch_invert, double_and_compress_batch, the ladder) are analysed over abstract collections. "
                      "Residuals are reviewed obligations with reasons in props/C11.py (non-zero products in the two batch_invert routines; oddness of NAF digits; documented equal-length precondition of multiscalar_mul; the algebraic expect() in nonspec_map_to_curve) and assumptions A1-A4. IFMA and fiat kernels are not covered (see DESIGN.md)",
-                note="sound-by-construction interval domain over the compiler's checked-mode MIR; trusted: exporter, interpreter + library models, assumptions A1-A4 listed in the evidence", ref="3.2, 4 C11"),
+                note="sound-by-construction interval domain over the compiler's checked-mode MIR; trusted: exporter, interpreter + library models, assumptions A1-A4 listed in the evidence; thorough tier also the AVX-512 IFMA configuration under assumption A6 (two relational obligations of negate_lazy)", ref="3.2, 4 C11, 10.3"),
     "C15": dict(cat="other", tech="panic-edge inventory over the resolved call graph + interval abstract interpretation from every untrusted-input entry point (PANIC + ABSINT engines)",
                 text="From every exported function that consumes bytes / encodings / signatures / Montgomery points (discovered by signature, 75 today), in the three crates: every Assert terminator and panic-capable call "
                      "on a live path of every reachable function (>=250 functions, >=600 edges per configuration) is discharged by constant/length reasoning, or shown to hold / be unreachable by the interval analysis run from the same entry points "
                      "with arbitrary byte contents and slice lengths, or matches one of three reviewed residuals (relational length equalities in verify_batch; the algebraic expect() in nonspec_map_to_curve, whose structural side condition - "
                      "to_edwards yields None only via the u == -1 test or decompress() - is checked on every run). Release-mode MIR; checked-build arithmetic panics are C11's",
-                note="allocation failure, foreign crates' internals and user trait impls are outside; trusted: exporter, PANIC inventory, ABSINT interpreter + models", ref="3.5, 4 C15"),
+                note="allocation failure, foreign crates' internals and user trait impls are outside; trusted: exporter, PANIC inventory, ABSINT interpreter + models. C15.debug_assert: panic edges that exist only in the checked build of ed25519-dalek / x25519-dalek and are reachable from the entry points must be discharged (found the repaired defect of DESIGN section 9)", ref="3.5, 4 C15, 9"),
     "C01": dict(cat="other", tech="monomial (exponent) abstract domain over the addition chains + literal limb-vector arithmetic against p + interval post-conditions of the byte codecs (EXPCHAIN, ABSINT)",
                 text="Decides necessary conditions only, NOT exactness of the limb kernels (value-level; stated as not decided): invert = x^(p-2), pow_p58 = x^((p-5)/8), pow22501 = (x^(2^250-1), x^11), sqrt_ratio_i forms the candidate root "
                      "u^((p+3)/8) v^(3+7(p-5)/8) and the check value v r^2 (monomial domain over the MIR of the chains, kernels abstracted by their algebraic meaning); every literal limb vector added before a reduce (sub, sub_assign, negate; u64 and u32) is a multiple of p; "
                      "from_bytes yields limbs within nominal width (bit 255 dropped, value < 2^255) and as_bytes clears the top bit for every admissible representation (intervals); in the limb kernels and repacking code (serial u64/u32 and AVX2 field) every low-bit mask that can drop bits has its carry companion `>> k` of the same value (no silent truncation). Absence of wrap-around in every field kernel is C11's",
-                note="partial; vector (AVX2/IFMA) field and fiat primitives not analysed; kernels' products are trusted here. Added: batch_invert decided in the FORMULA domain for every zero / non-zero pattern of 0..4 elements (non-zero inverted, zero kept, assertion unreachable)", ref="10.6"),
+                note="partial; vector (AVX2/IFMA) field and fiat primitives not analysed; kernels' products are trusted here. Added: batch_invert decided in the FORMULA domain for every zero / non-zero pattern of 0..4 elements (non-zero inverted, zero kept, assertion unreachable); from_bytes of both serial backends decided bit by bit in the BITS domain (sum limb_i 2^(weight_i) = sum_{k<255} b_k 2^k); as_bytes of both serial backends: q = carry out of h + 19 through all limbs, h_0 += 19 q, every limb carried and masked, bytes = low 255 bits of h + 19 q (C01.encode_canonical)", ref="10.6"),
     "C02": dict(cat="other", tech="interval analysis with a magnitude contract at every montgomery_reduce call + monomial domain over the inversion chain + constructor / pack() inventory (ABSINT, EXPCHAIN, PATH)",
                 text="Decides necessary conditions only, NOT exactness of mul_internal / montgomery_reduce / add / sub (value-level; stated as not decided): every montgomery_reduce call reachable from the public Scalar API receives a value < l*R "
                      "(so its single conditional subtraction is canonical), u64 and u32; the inversion chain raises to l-2; every raw construction Scalar{bytes} in the three crates is of a reviewed kind and every pack() receives the output of a reducing kernel; "
                      "from_canonical_bytes' flag depends on is_canonical = ct_eq(self, reduce(self)); integer conversions write the little-endian bytes at offset 0 of a zeroed array",
-                note="partial; relies on A1/A2 and on the constants decided by C12. Added (C02.mont, MONT domain): every public scalar operation (mul, add, sub, neg, reduce, invert, UnpackedScalar mul / square / as_montgomery) returns the plain value with no stray factor of the Montgomery radix, batch_invert inverts every entry and returns the inverse of the product", ref="10.6"),
+                note="partial; relies on A1/A2 and on the constants decided by C12. Added (C02.mont, MONT domain): every public scalar operation (mul, add, sub, neg, reduce, invert, UnpackedScalar mul / square / as_montgomery) returns the plain value with no stray factor of the Montgomery radix, batch_invert inverts every entry and returns the inverse of the product; (C02.canon.operand) a constant operand of the unpacked add / minuend of sub is below l; (C02.codec, BITS domain) from_bytes / as_bytes / from_bytes_wide place every input bit at its own weight, and from_bytes_wide = lo + hi R (C02.mont)", ref="10.6"),
     "C04": dict(cat="other", tech="formal-linear-combination abstract domain over the scalar-multiplication routines (LINCOMB) + may-write / may-read index analysis of the digit arrays (ABSINT)",
                 text="Decides necessary conditions only, NOT that the result equals the sum of s_i*P_i (the group law and the numerical exactness of the recodings are stated as not decided): "
                      "in the linear-combination domain (group operations by their algebraic meaning, symbolic digits, lookup tables computed from their own constructors) variable-base, the five basepoint tables (create + mul_base), vartime double-base, "
-                     "Straus (ct + vartime) and precomputed Straus - serial and AVX2 copies, 15 routines - each return exactly sum 2^(w i) d_i P; every digit position a recoding must be able to produce is written by some execution "
+                     "Straus (ct + vartime) and precomputed Straus - serial and AVX2 copies, 15 routines - each return exactly sum 2^(w i) d_i P; both Pippenger copies (bucket indices are symbolic digits: a bucket update is an indicator-weighted update of every bucket; "
+                     "analysed with all digits positive and with all digits negative) contribute exactly v 2^(w j) P_i for every point i, position j and digit value v in +-[1, 2^(w-1)]; mul_by_pow_2(k) = 2^k P and mul_by_cofactor = 8 P; every digit position a recoding must be able to produce is written by some execution "
                      "(non_adjacent_form w=5..8: 256; as_radix_16: 64; as_radix_2w w=5..8: ceil(256/w)(+1 for 256)); in every scalar-multiplication routine - serial and AVX2 copies of variable-base, vartime double-base, Straus (both), Pippenger, "
                      "precomputed Straus, the five basepoint-table radices (>=10 routines per configuration) - every digit position the recoder may leave non-zero is read by some execution (index intervals over-approximate, so an uncovered position is "
                      "provably never accessed); every optional_* multiscalar routine, given a non-empty batch whose points are all None, can only return None. Digit ranges fitting the lookup tables are C11's select() obligations",
-                note="partial; a may-analysis: it proves digits are dropped, it cannot prove they are combined with the right weights", ref="10.6"),
+                note="partial: the Horner / window / table / bucket structure of every routine is decided for symbolic digits (LINCOMB); the group law is C03's formulas, the numerical exactness of the recodings is not decided", ref="10.6"),
     "C05": dict(cat="other", tech="dispatch-site rule (arm completeness, same-name sibling, argument order) + set comparison of the exported API across backend configurations",
                 text="Decides necessary conditions only, NOT byte-equality of outputs across configurations (relational, value-level; stated as not decided): each of the 9 run-time dispatchers has one arm per compiled backend kind and every arm forwards the dispatcher's own parameters "
                      "in order to the same-named routine of that backend's module; the exported API (paths + signatures outside backend::) is identical across simd / serial64 / serial32 / fiat64 (thorough: + fiat32, ifma, no-tables pairs). "
@@ -81,11 +82,11 @@ CLAIMS = {
                      "recompute_R/compute_challenge wiring and hash order incl. dom2 prefix; legacy rule (mask 224 on the input byte 31) only under legacy_compatibility; VerifyingKey point/compressed invariant. Structural: the value-level correctness of the double-base multiplication is C04's",
                 note="decides the acceptance structure on all 14 entry points and, for verify / verify_strict on a symbolic key, message and signature (C09.sem, BATCHEQ models): the single comparison is compress(sB - H(R||A||M)A) against the signature's R bytes with s the canonical scalar of bytes 32..64; a false comparison, a failing S decoding, (strict) an undecodable R or a small-order hit give Err only; small-order tests on the decoded R and on A; Ok reachable. Refactors that move a check into a new helper with argument predicates fail closed (documented)", ref="3.6, 4 C09, 10.6"),
     "C06": dict(cat="other", tech="abstract interpretation of the ristretto255 formulas in the FORMULA domain (rational functions over Z, one run per sign scenario, inverse square roots opaque) + flag-to-decision dominance over Choice implications + data-dependence (PATH engine)",
-                text="Formulas (C06.formula, 14 scenarios per backend): decode computes x = |2 s Dx|, y = u1 Dy, (x, y, 1, xy) with I = invsqrt(v u2^2), v = -d u1^2 - u2^2, u1 = 1 - s^2, u2 = 1 + s^2; encode takes invsqrt(u1 u2^2), tests the signs of T z_inv, x z_inv and s and emits |den_inv (Z - y)| with the RFC 9496 rotation "
-                     "(i X, i Y, i1 / sqrt(a - d)) in all eight sign scenarios; the element-derivation map calls sqrt_ratio_i((r+1)(1-d^2), (-1-dr)(r+d)) and returns (2sD/(N_t sqrt(ad-1)), (1-s^2)/(1+s^2)) with the RFC's choice of s and c in all three scenarios; equality compares X1Y2 with Y1X2 and X1X2 with Y1Y2. "
+                text="Formulas (C06.formula, 22 scenarios per backend): decode computes x = |2 s Dx|, y = u1 Dy, (x, y, 1, xy) with I = invsqrt(v u2^2), v = -d u1^2 - u2^2, u1 = 1 - s^2, u2 = 1 + s^2; encode takes invsqrt(u1 u2^2), tests the signs of T z_inv, x z_inv and s and emits |den_inv (Z - y)| with the RFC 9496 rotation "
+                     "(i X, i Y, i1 / sqrt(a - d)) in all eight sign scenarios; the element-derivation map calls sqrt_ratio_i((r+1)(1-d^2), (-1-dr)(r+d)) and returns (2sD/(N_t sqrt(ad-1)), (1-s^2)/(1+s^2)) with the RFC's choice of s and c in all three scenarios; equality compares X1Y2 with Y1X2 and X1X2 with Y1Y2; double_and_compress_batch (one symbolic point, 8 sign scenarios, inversion through batch_invert) encodes |(h - g) magic g Tinv| with e, f, g, h of the doubled point. "
                      "Structural clauses: all five rejection flags of the ristretto decoder test the value they must test and reach the None / CtOption decision (both decoders); encoders emit as_bytes of the sign-normalised value; "
                      "one-way map reads both halves; equality is the two-product coset test; RistrettoPoint constructors inventory (no unvalidated wrap); field not public. NOT decided: that the RFC's formulas realise a prime-order group (Decaf / RFC 9496 theorem), "
-                     "sqrt_ratio_i's contract (C01 CHAIN decides its exponent), the field kernels (C01 / C11), double_and_compress_batch's formulas",
+                     "sqrt_ratio_i's contract (C01 CHAIN decides its exponent), the field kernels (C01 / C11)",
                 note="formula-level conformance with RFC 9496 decided per sign scenario; structural conditions in every backend configuration", ref="10.6 FORMULA, 3.6, 4 C06"),
     "C13": dict(cat="other", tech="abstract interpretation of verify_batch's MIR in the BATCHEQ domain (scalar polynomials / polynomial combinations of points over symbolic batches of 0..5 entries, lib/eng_batcheq.py) "
                                    "+ dominance, happens-before reachability and pipeline structure matching (PATH engine) as the fallback when a value leaves the domain",
@@ -122,14 +123,15 @@ m = {
         {"name": "EXPCHAIN", "path": "lib/eng_expchain.py", "serves_properties": ["C01", "C02"], "kind_free_text": "monomial abstract domain (exponent vectors) over the addition chains, on the generic MIR interpreter"},
         {"name": "LINCOMB", "path": "lib/eng_lincomb.py", "serves_properties": ["C04"], "kind_free_text": "formal linear combinations (coefficient x symbolic digit x symbolic point) on the generic MIR interpreter"},
         {"name": "LADDER", "path": "lib/eng_ladder.py", "serves_properties": ["C07"], "kind_free_text": "multilinear-polynomial multiples of the base point over symbolic scalar bits, on the generic MIR interpreter"},
-        {"name": "FORMULA", "path": "lib/eng_formula.py lib/formula_rules.py", "serves_properties": ["C03", "C06", "C07", "C01"], "kind_free_text": "rational functions over Z in symbolic coordinates with ring transfer functions for the field kernels, lane-wise for AVX2; identities by polynomial normalisation (modulo the curve equation for doubling)"},
+        {"name": "FORMULA", "path": "lib/eng_formula.py lib/formula_rules.py", "serves_properties": ["C03", "C06", "C07", "C01", "C17"], "kind_free_text": "rational functions over Z in symbolic coordinates with ring transfer functions for the field kernels, lane-wise for AVX2; identities by polynomial normalisation (modulo the curve equation for doubling)"},
+        {"name": "BITS", "path": "lib/eng_bits.py lib/codec_rules.py", "serves_properties": ["C01", "C02"], "kind_free_text": "bit-provenance domain (per-bit sources under shifts, masks, ors, casts) on the generic MIR interpreter: byte <-> limb codecs"},
         {"name": "MONT", "path": "lib/eng_mont.py", "serves_properties": ["C02"], "kind_free_text": "FORMULA fractions with the Montgomery radix as a symbol; transfer functions for mul_internal / montgomery_reduce / from_montgomery / montgomery_invert"},
-        {"name": "BATCHEQ", "path": "lib/eng_batcheq.py lib/sig_rules.py", "serves_properties": ["C13", "C08", "C09"], "kind_free_text": "scalar polynomials and polynomial combinations of points over symbolic batches, on the generic MIR interpreter"},
+        {"name": "BATCHEQ", "path": "lib/eng_batcheq.py lib/sig_rules.py", "serves_properties": ["C13", "C08", "C09", "C07"], "kind_free_text": "scalar polynomials and polynomial combinations of points over symbolic batches, on the generic MIR interpreter"},
         {"name": "PATH", "path": "lib/mirlib.py lib/pathlib2.py lib/ex.py", "serves_properties": [p for p in ["C03", "C06", "C07", "C08", "C09", "C13", "C16", "C17"] if p in CLAIMS],
          "kind_free_text": "dominance (edge-removal reachability), value-flow slices, expression trees, ORDER, guard implication"},
     ],
     "checks": [],
-    "notes": "static analysis only; every check extracts facts from /repo's current working tree (scratch copy, removed afterwards) through `cargo +nightly check` with the mirfacts wrapper. See DESIGN.md.",
+    "notes": "repair commit in /repo: 01b199a 'fix: return PrehashedContextLength instead of a debug assertion for over-long contexts in prehashed verification' (C15, found by C15.debug_assert; recorded in known_findings.json as fixed, demonstration in selftest/findings/). static analysis only; every check extracts facts from /repo's current working tree (scratch copy, removed afterwards) through `cargo +nightly check` with the mirfacts wrapper. See DESIGN.md.",
     "not_applicable": [],
 }
 for p in props:
